@@ -2,7 +2,7 @@
 solve, on the top object and every random sub-object including list elements, and never for a non-random sub-object or
 anything below it."""
 import itertools
-from pyvc.contract import contract
+from pyvc.contract import contract, library_only
 
 
 def hook_cases(tier, seed):
@@ -192,5 +192,6 @@ def c_hooks(c, structure, how):
                 c.check("C17: a non-random sub-object (and anything below it) keeps the values it had: its hooks did not run",
                         int(o.lim) == 200, info="%s lim=%d" % (o.tag, int(o.lim)))
     except Exception as e:
+        library_only(e)
         import traceback
         c.check("C17: no exception from a satisfiable call with hooks", False, info="%s: %s %s" % (type(e).__name__, e, traceback.format_exc(limit=-3)))
